@@ -134,6 +134,25 @@ func scenarioC19(c *Ctx) {
 			report(pre, live, restored, midProj, steps)
 		}
 		c.Case("handover-walk", true, "mem "+midProj+" | "+strings.Join(steps, " ;; "), "mem "+strings.Join(obs, " ;; "))
+		// (iii) TWO rounds held in memory by one process, handed over one after the other, then both
+		// continued in memory: each must keep behaving like its own restored copy (no state shared
+		// between the rounds' machines)
+		instA, _ := loadDump(initialDump("round-two-A"))
+		instB, _ := loadDump(initialDump("round-two-B"))
+		var stA, obA, stB, obB []string
+		both := func(ev Ev) {
+			live, restored, pre := step(instA, ev, &stA, &obA)
+			report(pre, live, restored, "two rounds in memory (first)", stA)
+			live, restored, pre = step(instB, ev, &stB, &obB)
+			report(pre, live, restored, "two rounds in memory (second)", stB)
+		}
+		for _, ev := range seq {
+			both(ev)
+		}
+		for _, ev := range seq2 {
+			both(ev)
+		}
+		c.Case("two-rounds-in-memory", true, "skip two-rounds", "skip two-rounds")
 	}
 	for w := 0; w < walks+len(loadable); w++ {
 		p := loadable[c.Rng.Intn(len(loadable))]
